@@ -100,7 +100,25 @@ def main(gen_lean, gen_json):
                 neg = None
         except Exception:
             pass
-        rec = dict(id=i + 1, key=key, method=meth, fn=op.__name__, prec=O._PRECEDENCE.get(op, -100),
+        # does the renderer group operands that rank above the operator (its own self_group calls)?
+        extra, exempt_key = 0, None
+        if key not in ('in', 'not in'):
+            seen = {}
+            for pk in ('+', '%', '*'):
+                inner = A.BinaryOperation(op=pk, args=[A.Identifier('b'), A.Identifier('c')])
+                pe = RR.to_expression(inner)
+                rk_in = O._PRECEDENCE.get(pe.operator, getattr(pe.operator, 'precedence', -100))
+                own = O._PRECEDENCE.get(op, getattr(op, 'precedence', -100))
+                if key != pk and rk_in > own:
+                    txt = str(RR.to_expression(A.BinaryOperation(op=key, args=[A.Identifier('a'), inner])).compile(dialect=dia))
+                    seen[pk] = (rk_in, '(' in txt)
+            wrapped = [rk for rk, w in seen.values() if w]
+            if wrapped:
+                extra = max(wrapped)
+                bare = [pk for pk, (rk, w) in seen.items() if not w and rk <= extra]
+                exempt_key = bare[0] if bare else None
+        rec = dict(id=i + 1, key=key, method=meth, fn=getattr(op, '__name__', 'custom:' + str(getattr(op, 'opstring', '?'))),
+                   extra=extra, exempt_key=exempt_key, prec=O._PRECEDENCE.get(op, getattr(op, 'precedence', -100)),
                    natural=bool(O.is_natural_self_precedent(op)), neg_fn=neg.__name__ if neg else None,
                    text=text_of(e) if key not in ('in', 'not in') else key.upper())
         bins.append(rec)
@@ -111,12 +129,13 @@ def main(gen_lean, gen_json):
         e = f(a, b)
         op = e.operator
         # and_/or_ flatten nested lists of the same operator: same printed text as a natural self precedent
-        rec = dict(id=n + j + 1, key=key, method=fn, fn=op.__name__, prec=O._PRECEDENCE.get(op, -100), natural=True,
+        rec = dict(id=n + j + 1, key=key, method=fn, fn=op.__name__, prec=O._PRECEDENCE.get(op, -100), natural=True, extra=0,
                    neg_fn=None, text=text_of(e))
         bins.append(rec)
         by_fn.setdefault(op.__name__, rec['id'])
     for r in bins:
         r['neg'] = by_fn.get(r['neg_fn'], 0) if r['neg_fn'] else 0
+        r['exempt'] = next((x['id'] for x in bins if x['key'] == r.get('exempt_key')), 0)
     pres = []
     for j, (key, meth) in enumerate(sorted(tabs['opmap'], reverse=True)):
         e = getattr(a, meth)()
@@ -137,9 +156,10 @@ def main(gen_lean, gen_json):
     lean = [
         '-- GENERATED by tools/extract/x_saprec.py from SqlalchemyRender.to_expression, sqlalchemy.sql.operators and the grammars. Do not edit.',
         'namespace MindsVerif.Gen.SaPrec',
-        '/-- binary operators of `methods` / `functions`: (id, key, text printed for sqlite, `_PRECEDENCE`, natural self precedent, id `__invert__` flips it to or 0) -/',
-        'def bins : List (Nat × String × String × Nat × Bool × Nat) := %s' % L(
-            '(%d,%s,%s,%d,%s,%d)' % (r['id'], q(r['key']), q(r['text']), max(r['prec'], 0), 'true' if r['natural'] else 'false', r['neg'])
+        '/-- binary operators of `methods` / `functions`: (id, key, text printed for sqlite, `_PRECEDENCE`, natural self precedent, id `__invert__` flips it to or 0, rank the renderer itself groups the operands against or 0, id of the operator exempt from that or 0) -/',
+        'def bins : List (Nat × String × String × Nat × Bool × Nat × Nat × Nat) := %s' % L(
+            '(%d,%s,%s,%d,%s,%d,%d,%d)' % (r['id'], q(r['key']), q(r['text']), max(r['prec'], 0), 'true' if r['natural'] else 'false', r['neg'],
+                                        r['extra'], r['exempt'])
             for r in bins),
         '/-- prefix operators of `opmap`: (id, key, text, `_PRECEDENCE`, groups every binary operand) -/',
         'def pres : List (Nat × String × String × Nat × Bool) := %s' % L(
